@@ -85,6 +85,15 @@ type pipe struct {
 	failStop bool
 	seenLog [][]*progress.Seen
 	expectTooBig int
+	pcClosed bool
+	inClosed bool
+	tickPanicked bool
+	deadCalls int
+	retries int
+	cancelledAfterFault bool
+	sinkDead map[int]string
+	faultAt int
+	faultKind string
 	ledgerItems int
 	routing string
 	settled bool
@@ -151,6 +160,13 @@ func (f *fakeS3) PutObjectWithContext(ctx aws.Context, in *s3.PutObjectInput, _ 
 // sinkWait parks a worker's sink call at its gate; on accept the records are logged as sunk
 // BEFORE the call returns, so the global event order is the real order.
 func (p *pipe) sinkWait(w int, ids []int) string {
+	p.mu.Lock()
+	if d, ok := p.sinkDead[w]; ok {
+		p.deadCalls++
+		p.mu.Unlock()
+		return d // injected permanent fault: every call fails (or panics) from now on
+	}
+	p.mu.Unlock()
 	c := &sinkCall{ids: ids, decide: make(chan string)}
 	p.mu.Lock()
 	p.pending[w] = c
@@ -200,7 +216,7 @@ func (p *pipe) quiesce() {
 
 func newPipe(w []string, rng *Rng) (*pipe, error) {
 	// pipeline cfg <kind> <workers> <routing> <pmethod> <buckets> <wl 0|1> <listhex> <mem> <mode> <retries>
-	p := &pipe{rng: rng, pkeyIds: map[string]int{}}
+	p := &pipe{rng: rng, pkeyIds: map[string]int{}, sinkDead: map[int]string{}, faultAt: -1}
 	p.kind = w[2]
 	p.workers, _ = strconv.Atoi(w[3])
 	p.routing = w[4]
@@ -212,6 +228,7 @@ func newPipe(w []string, rng *Rng) (*pipe, error) {
 	mem, _ := strconv.ParseInt(w[9], 10, 64)
 	p.mode = w[10]
 	retries, _ := strconv.Atoi(w[11])
+	p.retries = retries
 	p.sh = shutdown.NewShutdownHandler()
 	p.pc = newParkCtx()
 	cancel := p.sh.CancelFunc
@@ -279,6 +296,16 @@ func newPipe(w []string, rng *Rng) (*pipe, error) {
 	if p.mode == "real" {
 		go p.tracker.Start(2 * time.Millisecond)
 	}
+	// the batcher's context is the parking context: relay the process-wide cancellation to it
+	go func() {
+		<-p.sh.TerminateCtx.Done()
+		p.mu.Lock()
+		if !p.pcClosed {
+			p.pcClosed = true
+			close(p.pc.done)
+		}
+		p.mu.Unlock()
+	}()
 	select {
 	case <-p.pc.parked:
 		p.parked = true
@@ -386,6 +413,17 @@ func (p *pipe) waitBatcher(expectFilter bool) string {
 		case <-p.bexit:
 			p.bdead = true
 			return "exited"
+		case <-p.sh.TerminateCtx.Done():
+			// the process is stopping: upstream stages drop what they hold; nothing more to wait for
+			select {
+			case <-p.bexit:
+				p.bdead = true
+			case <-p.pc.parked:
+				p.parked = true
+				p.inSelect = false
+			case <-time.After(100 * time.Millisecond):
+			}
+			return "terminating"
 		case <-timeout:
 			return "timeout"
 		}
@@ -405,7 +443,18 @@ func (p *pipe) tick() string {
 		return "dead"
 	}
 	done := make(chan bool, 1)
-	go func() { done <- p.b.VerifHandleTicker() }()
+	panicked := make(chan bool, 1)
+	go func() {
+		// in the real process the tick handler runs inside StartBatching, whose deferred shutdown()
+		// cancels the shared context and recovers: mirror that for a panic here
+		defer func() {
+			if r := recover(); r != nil {
+				p.sh.CancelFunc()
+				panicked <- true
+			}
+		}()
+		done <- p.b.VerifHandleTicker()
+	}()
 	timeout := time.After(10 * time.Second)
 	for {
 		var seenCh chan []*progress.Seen
@@ -415,6 +464,10 @@ func (p *pipe) tick() string {
 		select {
 		case s := <-seenCh:
 			p.applySeen(s)
+		case <-panicked:
+			p.bdead = true
+			p.tickPanicked = true
+			return "tick-panic"
 		case ok := <-done:
 			if !ok {
 				return "tick-false"
@@ -467,7 +520,12 @@ func (p *pipe) stop() {
 		}
 	}
 	if !p.bdead {
-		close(p.pc.done)
+		p.mu.Lock()
+		if !p.pcClosed {
+			p.pcClosed = true
+			close(p.pc.done)
+		}
+		p.mu.Unlock()
 		if p.parked {
 			p.pc.resume <- struct{}{}
 		} else {
@@ -596,6 +654,14 @@ func pipelineRun(c Case) ([]string, []string) {
 				outs = append(outs, "dead")
 				continue
 			}
+			if p.inClosed {
+				outs = append(outs, "input-closed")
+				continue
+			}
+			if p.sh.TerminateCtx.Err() != nil {
+				outs = append(outs, "terminating")
+				continue
+			}
 			rel := unhexs(w[3])
 			txn, _ := strconv.Atoi(w[4])
 			key, _ := strconv.Atoi(w[5])
@@ -634,11 +700,18 @@ func pipelineRun(c Case) ([]string, []string) {
 				<-p.fdec
 			}
 			p.resumeBatcher()
+			sent := false
 			select {
 			case p.in <- m:
+				sent = true
+			case <-p.sh.TerminateCtx.Done():
 			case <-time.After(5 * time.Second):
 				outs = append(outs, "input-blocked")
 				return lines, outs
+			}
+			if !sent {
+				outs = append(outs, "terminating")
+				continue
 			}
 			r := p.waitBatcher(true)
 			p.quiesce()
@@ -688,6 +761,62 @@ func pipelineRun(c Case) ([]string, []string) {
 				p.drainWritten(k)
 			}
 			outs = append(outs, "ok")
+		case "fault":
+			// pipeline fault sinkdead|sinkpanic <w> | closeinput : an unrecoverable condition from now on
+			p.mu.Lock()
+			p.faultAt = len(p.evs)
+			p.faultKind = w[2]
+			p.mu.Unlock()
+			switch w[2] {
+			case "sinkdead", "sinkpanic":
+				wk, _ := strconv.Atoi(w[3])
+				if wk >= p.workers {
+					wk = 0
+				}
+				d := "fail"
+				if w[2] == "sinkpanic" {
+					d = "panic"
+				}
+				p.mu.Lock()
+				p.sinkDead[wk] = d
+				c := p.pending[wk]
+				p.mu.Unlock()
+				if c != nil {
+					p.mu.Lock()
+					p.deadCalls++
+					p.mu.Unlock()
+					c.decide <- d
+				}
+			case "closeinput":
+				if !p.inClosed {
+					p.inClosed = true
+					close(p.in)
+				}
+			}
+			p.quiesce()
+			outs = append(outs, "ok")
+		case "faultcheck":
+			// the shared termination signal must have been raised if the fault could manifest
+			cancelled := false
+			select {
+			case <-p.sh.TerminateCtx.Done():
+				cancelled = true
+			case <-time.After(600 * time.Millisecond):
+			}
+			// let the batcher observe it
+			if cancelled && !p.bdead {
+				if p.parked {
+					p.pc.resume <- struct{}{}
+					p.parked = false
+				}
+				select {
+				case <-p.bexit:
+					p.bdead = true
+				case <-time.After(2 * time.Second):
+				}
+			}
+			p.cancelledAfterFault = cancelled
+			outs = append(outs, fmt.Sprintf("cancelled=%v batcherdead=%v", cancelled, p.bdead))
 		case "settle":
 			// everything the environment owes: sinks accept, time passes, ticks and emits happen
 			for round := 0; round < 40; round++ {
@@ -748,7 +877,7 @@ func pipelineRun(c Case) ([]string, []string) {
 		tb := p.tooBigStats
 		p.mu.Unlock()
 		lines = append(lines, "pipeline history")
-		outs = append(outs, fmt.Sprintf("H tb=%d/%d failstop=%v settled=%v items=%d mode=%s routing=%s ## %s ## %s", tb, p.expectTooBig, p.failStop || p.bdead, p.settled, p.ledgerItems, p.mode, p.routing, hist, led))
+		outs = append(outs, fmt.Sprintf("H tb=%d/%d failstop=%v settled=%v items=%d mode=%s routing=%s fault=%s faultat=%d cancelled=%v deadcalls=%d retries=%d ## %s ## %s", tb, p.expectTooBig, p.failStop || p.bdead, p.settled, p.ledgerItems, p.mode, p.routing, p.faultKind, p.faultAt, p.cancelledAfterFault, p.deadCalls, p.retries, hist, led))
 	}
 	return lines, outs
 }
@@ -982,5 +1111,129 @@ func init() {
 		Compare: func(line, impl, model string) bool { return true },
 		Nontrivial: func(lines, outs []string) bool {
 			return len(outs) > 0 && strings.Contains(outs[len(outs)-1], "pipemon ack") && strings.Contains(outs[len(outs)-1], "pipemon sunk")
+		}})
+}
+
+
+// ---- pipefault: one unrecoverable fault injected into the assembled pipeline (C17) ----
+
+func pipefaultGen(r *Rng, tier string) Case {
+	base := pipelineGen(r, tier)
+	// small retry budget so that a dead sink exhausts it; no redeliveries (keeps C01 noise out)
+	cfg := strings.Fields(base.Lines[0])
+	cfg[10] = "stepped"
+	cfg[11] = strconv.Itoa(r.Intn(3))
+	workers, _ := strconv.Atoi(cfg[3])
+	lines := []string{strings.Join(cfg, " ")}
+	body := []string{}
+	for _, l := range base.Lines[1 : len(base.Lines)-1] {
+		// with a retry budget this small an ordinary retryable failure is already unrecoverable:
+		// keep the injected fault the only one
+		if strings.HasPrefix(l, "pipeline gate ") && strings.HasSuffix(l, " fail") {
+			l = strings.TrimSuffix(l, "fail") + "accept"
+		}
+		body = append(body, l)
+	}
+	cut := 0
+	if len(body) > 0 {
+		cut = r.Intn(len(body) + 1)
+	}
+	var fault string
+	switch r.Intn(3) {
+	case 0:
+		fault = fmt.Sprintf("pipeline fault sinkdead %d", r.Intn(workers))
+	case 1:
+		fault = fmt.Sprintf("pipeline fault sinkpanic %d", r.Intn(workers))
+	default:
+		fault = "pipeline fault closeinput"
+	}
+	lines = append(lines, body[:cut]...)
+	lines = append(lines, fault)
+	// the environment goes on for a while: more input, ticks, gates, emits
+	rest := body[cut:]
+	if len(rest) > 25 {
+		rest = rest[:25]
+	}
+	lines = append(lines, rest...)
+	lines = append(lines, "pipeline tick 3")
+	for w := 0; w < workers; w++ {
+		lines = append(lines, fmt.Sprintf("pipeline gate %d accept", w))
+	}
+	lines = append(lines, "pipeline ledger emit", "pipeline faultcheck", "pipeline ledger emit")
+	return Case{lines}
+}
+
+func pipefaultValid(lines []string) bool {
+	n := len(lines)
+	if n < 3 || lines[n-2] != "pipeline faultcheck" {
+		return false
+	}
+	faults := 0
+	for _, l := range lines {
+		if strings.HasPrefix(l, "pipeline fault ") {
+			faults++
+		}
+	}
+	if faults != 1 {
+		return false
+	}
+	return pipelineValid(append(append([]string{}, lines...), "pipeline settle"))
+}
+
+func pipefaultMonitor(lines, outs []string, m *Model) []Violation {
+	if len(outs) == 0 || !strings.HasPrefix(outs[len(outs)-1], "H ") {
+		return nil
+	}
+	parts := strings.SplitN(outs[len(outs)-1], " ## ", 3)
+	if len(parts) != 3 {
+		return nil
+	}
+	hdr := map[string]string{}
+	for _, f := range strings.Fields(parts[0])[1:] {
+		kv := strings.SplitN(f, "=", 2)
+		if len(kv) == 2 {
+			hdr[kv[0]] = kv[1]
+		}
+	}
+	m.Do("pipemon reset")
+	if parts[1] != "" {
+		for _, l := range strings.Split(parts[1], "|") {
+			m.Do(l)
+		}
+	}
+	v, _ := m.Do("pipemon verdict")
+	var vs []Violation
+	info := " (" + parts[0] + " | " + v + ")"
+	dead, _ := strconv.Atoi(hdr["deadcalls"])
+	retries, _ := strconv.Atoi(hdr["retries"])
+	expect := false
+	switch hdr["fault"] {
+	case "closeinput":
+		expect = true
+	case "sinkpanic":
+		expect = dead >= 1
+	case "sinkdead":
+		expect = dead >= retries+1
+	}
+	cancelled := hdr["cancelled"] == "true"
+	if expect && !cancelled {
+		vs = append(vs, Violation{"C17", "an unrecoverable fault (" + hdr["fault"] + ") did not raise the shared termination signal" + info, ""})
+	}
+	if !expect && cancelled && hdr["fault"] != "" && dead == 0 {
+		vs = append(vs, Violation{"C02", "pg-bifrost stopped although the injected fault never manifested" + info, ""})
+	}
+	if strings.Contains(v, "safe=false") {
+		known := ""
+		vs = append(vs, Violation{"C17", "a position beyond what the sink had accepted was acknowledged around an unrecoverable fault" + info, known})
+	}
+	return vs
+}
+
+func init() {
+	register(&Component{Name: "pipefault", Gen: pipefaultGen, Run: pipelineRun, Monitor: pipefaultMonitor, Serial: true,
+		Valid: pipefaultValid, Quick: 160, Thorough: 4000,
+		Compare: func(line, impl, model string) bool { return true },
+		Nontrivial: func(lines, outs []string) bool {
+			return len(outs) > 0 && strings.Contains(outs[len(outs)-1], "cancelled=true")
 		}})
 }
